@@ -7,10 +7,11 @@ Line protocol of `model_C23` (stateful; one atomic step of the pool model per li
 ```
 new <min_size>                      -> ok            (fresh pool, fresh ledger)
 <t> a <slot> <size> <align> <cap>   -> byp <id> <cap> | pend | panic      alloc: bypass test
-<t> l                               -> hit <id> <cap> | miss | panic      alloc: critical section
-<t> f                               -> fresh <id> <cap> | panic           alloc: fallback allocation
+<t> l [slot]                        -> hit <id> <cap> | miss | panic      alloc: critical section
+<t> f [slot]                        -> fresh <id> <cap> | panic           alloc: fallback allocation
 <t> d <slot>                        -> pend | rej <id> | panic            add: from_vec + size test
-<t> p                               -> ok                                 add: critical section
+<t> p [slot]                        -> ok                                 add: critical section
+                                       (the optional slot is informative only; the model uses the thread's pending entry)
 <t> x <slot>                        -> free <id>                          holder drops the vec
 <t> r <slot>                        -> pend | rej <id> | nobuf <id>       PoolRef drop
 end                                 -> dropped <n>                        pool dropped
@@ -42,10 +43,10 @@ def parseOp (ws : List String) : Option Op :=
   match ws with
   | [t, "a", slot, size, align, cap] => do
     pure (.allocStart (← t.toNat?) (← slot.toNat?) ⟨← size.toNat?, ← align.toNat?⟩ (← cap.toNat?))
-  | [t, "l"] => do pure (.allocLock (← t.toNat?))
-  | [t, "f"] => do pure (.allocFallback (← t.toNat?))
+  | [t, "l"] | [t, "l", _] => do pure (.allocLock (← t.toNat?))
+  | [t, "f"] | [t, "f", _] => do pure (.allocFallback (← t.toNat?))
   | [t, "d", slot] => do pure (.addStart (← t.toNat?) (← slot.toNat?))
-  | [t, "p"] => do pure (.addPush (← t.toNat?))
+  | [t, "p"] | [t, "p", _] => do pure (.addPush (← t.toNat?))
   | [t, "x", slot] => do pure (.dropVec (← t.toNat?) (← slot.toNat?))
   | [t, "r", slot] => do pure (.poolRefDrop (← t.toNat?) (← slot.toNat?))
   | ["end"] => some .dropPool
